@@ -5,6 +5,7 @@
   obey the laws of the real-geometry definitions and (ii) the integer formula evaluated in
   wrapping 64-bit arithmetic equals the unbounded one whenever the intermediates fit.
 -/
+import GeoProofs.Lemmas.GenKernel
 import GeoModel.Segment
 import GeoModel.Ops.C03
 import GeoProofs.Lemmas.SegmentSpec
@@ -153,5 +154,22 @@ theorem ringPos_open_ring_witness :
   constructor
   · norm_num [ringPos, segs, ringWinding, ringEdge]
   · rw [lineCoord_iff]; exact SegMem_left _ _
+
+/-- [T] (translator tie) the orientation and point-on-segment kernels of the model are, definition for
+definition, what `translator/rs2lean.py` regenerates from the Rust bodies on this run
+(`Kernel::orient2d`, `Line: Intersects<Coord>`, `Line: Intersects<Line>`, `point_in_rect`,
+`value_in_between`, `square_euclidean_distance`, `Point::cross_prod`). A change of a comparison, an
+argument order or a branch in those Rust functions changes the regenerated definitions and this
+theorem stops checking. -/
+theorem orientation_kernels_eq_source :
+    (∀ p q r, orient p q r = Gen.orient2d p q r) ∧
+    (∀ a b p, lineCoord a b p = Gen.lineCoord a b p) ∧
+    (∀ a b c d, lineLine a b c d = Gen.lineLine a b c d) ∧
+    (∀ p a b, pointInRect p a b = Gen.pointInRect p a b) ∧
+    (∀ v a b, valueInBetween v a b = Gen.valueInBetween v a b) ∧
+    (∀ p q, dist2 p q = Gen.squareEuclideanDistance p q) ∧
+    (∀ a b c, crossProd a b c = Gen.crossProd a b c) :=
+  ⟨GenKernel.orient_eq, GenKernel.lineCoord_eq, GenKernel.lineLine_eq, GenKernel.pointInRect_eq,
+   GenKernel.valueInBetween_eq, GenKernel.dist2_eq, GenKernel.crossProd_eq⟩
 
 end Geo.Proofs.C03
